@@ -11,7 +11,46 @@ use crate::wprog::*;
 use e57::E57Reader;
 
 pub fn exec(line: &str) -> String {
+    if let Some(pos) = line.find(" ## crash_after_write=") {
+        return debug_crash(&line[..pos], &line[pos..]);
+    }
     crate::eng_writer::exec(line)
+}
+
+/// replay of a crash case: the digests of the crash image and of the complete files of the session
+fn debug_crash(prog_line: &str, suffix: &str) -> String {
+    let Some((_, prog)) = parse_case_line(prog_line) else { return "BADCASE".into() };
+    let num = |key: &str| -> usize { suffix.split(key).nth(1).and_then(|r| r.split(' ').next()).and_then(|x| x.parse().ok()).unwrap_or(0) };
+    let (i, c) = (num("crash_after_write="), num("cut="));
+    let dev = SimDev::new(vec![]);
+    dev.set_record(true);
+    let run = execute(&prog, &dev);
+    let writes: Vec<(u64, Vec<u8>)> = dev.log().into_iter().filter_map(|e| if let Ev::Write(o, b) = e { Some((o, b)) } else { None }).collect();
+    let mut img: Vec<u8> = vec![];
+    let mut out = vec![format!("writes={} results={:?}", writes.len(), run.results)];
+    for (k, (off, b)) in writes.iter().enumerate() {
+        let n = if k < i { b.len() } else if k == i { c.min(b.len()) } else { 0 };
+        let off = *off as usize;
+        if n > 0 {
+            if img.len() < off + n {
+                img.resize(off + n, 0);
+            }
+            img[off..off + n].copy_from_slice(&b[..n]);
+        }
+        out.push(format!("w{k}@{off}+{}", b.len()));
+    }
+    out.push(format!("IMAGE {:?}", reader_digest(SimDev::new(img.clone()), 1000)));
+    out.push(format!("FINAL {:?}", reader_digest(SimDev::new(run.file.clone()), 1000)));
+    let mut ri = 0usize;
+    for (si, st) in prog.stmts.iter().enumerate() {
+        if matches!(st, Stmt::Fin | Stmt::FinX(_)) && run.results.get(ri).map(|r| r == "ok").unwrap_or(false) {
+            let p = Program { guid: prog.guid.clone(), stmts: prog.stmts[..=si].to_vec() };
+            let f = execute(&p, &SimDev::new(vec![])).file;
+            out.push(format!("COMPLETE@{si} {:?}", reader_digest(SimDev::new(f), 1000)));
+        }
+        ri += stmt_tokens(st);
+    }
+    out.join("\n")
 }
 
 /// statement index that was executing when the device fault fired: re-run and watch `faulted`
@@ -430,6 +469,9 @@ pub fn generate(sink: &mut Sink, seed: u64, thorough: bool) {
         // the complete files of this session: the device at the end of every successful top-level finalize
         // (obtained by running the program up to that statement)
         let mut completes: Vec<String> = vec![];
+        // … and the blob descriptors that had been handed out when that finalize ran (a descriptor of a later blob
+        // means nothing in the earlier complete file)
+        let mut complete_blobs: Vec<Vec<(u64, u64)>> = vec![];
         {
             let mut ri = 0usize; // index into results
             for (si, st) in prog.stmts.iter().enumerate() {
@@ -441,8 +483,14 @@ pub fn generate(sink: &mut Sink, seed: u64, thorough: bool) {
                         let p = Program { guid: prog.guid.clone(), stmts: prog.stmts[..=si].to_vec() };
                         execute(&p, &SimDev::new(vec![])).file
                     };
-                    if let Ok(Ok(f)) = guarded(|| reader_digest_blobs(SimDev::new(file.clone()), 100000, &pblobs)) {
+                    let known: Vec<(u64, u64)> = {
+                        let p = Program { guid: prog.guid.clone(), stmts: prog.stmts[..=si].to_vec() };
+                        let n = expected_scene(&p, &run.results).blobs.len();
+                        pblobs.iter().take(n).cloned().collect()
+                    };
+                    if let Ok(Ok(f)) = guarded(|| reader_digest_blobs(SimDev::new(file.clone()), 100000, &known)) {
                         completes.push(f);
+                        complete_blobs.push(known);
                     }
                 }
                 ri += ntok;
@@ -482,10 +530,23 @@ pub fn generate(sink: &mut Sink, seed: u64, thorough: bool) {
                             if before_final {
                                 sink.fail("C15", "crash/accepted-before-finalize", &replay, &format!("an image from before the end of the top-level finalize (write {i} of {}, {c} bytes of it) is accepted by the reader", writes.len()));
                             } else {
-                                let same = completes.iter().any(|f| same_or_error(f, &dg));
+                                let same = completes.iter().zip(complete_blobs.iter()).any(|(f, known)| {
+                                    if known.len() == pblobs.len() {
+                                        same_or_error(f, &dg)
+                                    } else {
+                                        // compare with an earlier complete file through the descriptors it knows
+                                        match guarded(|| reader_digest_blobs(SimDev::new(img.clone()), 100000, known)) {
+                                            Ok(Ok(dk)) => same_or_error(f, &dk),
+                                            _ => false,
+                                        }
+                                    }
+                                });
                                 let _ = &full;
                                 if !same {
-                                    sink.fail("C15", "crash/accepted-image-differs", &replay, "an accepted crash image reports content that differs from the complete file");
+                                    let a: Vec<&str> = full.split(' ').collect();
+                                    let b: Vec<&str> = dg.split(' ').collect();
+                                    let d = a.iter().zip(b.iter()).find(|(x, y)| x != y).map(|(x, y)| format!("{x} vs {y}")).unwrap_or_else(|| format!("{} vs {} tokens", a.len(), b.len()));
+                                    sink.fail("C15", "crash/accepted-image-differs", &replay, &format!("an accepted crash image reports content that differs from the complete file: {d}"));
                                 }
                             }
                         }
